@@ -76,3 +76,63 @@ pub fn redc1<const W: usize>(nd: &mut Nd) {
     chk!(nd, "C11.uint.mul_redc", ua.mul_redc(ub, um, inv).as_limbs()[0] == r);
     chk!(nd, "C11.uint.square_redc", ua.square_redc(um, inv).as_limbs()[0] == q);
 }
+
+const fn neg_inv_const(m: u64) -> u64 {
+    let mut x = m.wrapping_mul(3) ^ 2;
+    let mut i = 0;
+    while i < 5 {
+        x = x.wrapping_mul(2u64.wrapping_sub(m.wrapping_mul(x)));
+        i += 1;
+    }
+    x.wrapping_neg()
+}
+const fn neg_inv_table() -> [u64; 128] {
+    let mut t = [0u64; 128];
+    let mut i = 0;
+    while i < 128 {
+        t[i] = neg_inv_const(2 * i as u64 + 1);
+        i += 1;
+    }
+    t
+}
+/// -m^-1 mod 2^64 for odd m < 256, evaluated at compile time (a table read instead of five dependent 64-bit products)
+static NEG_INV: [u64; 128] = neg_inv_table();
+
+const fn r64_table() -> [u16; 128] {
+    let mut t = [0u16; 128];
+    let mut i = 0;
+    while i < 128 {
+        let m = 2 * i as u128 + 1;
+        t[i] = ((1u128 << 64) % m) as u16;
+        i += 1;
+    }
+    t
+}
+/// 2^64 mod m for odd m < 256, evaluated at compile time
+static R64: [u16; 128] = r64_table();
+
+/// N = 1 on every small modulus: m odd in 3..=255 (composite moduli with zero divisors included), every a, b < m.
+/// r < m and r * 2^64 = a * b (mod m), decided with u128 arithmetic on the small modulus.
+pub fn redc1_small<const W: usize, const MB: usize>(nd: &mut Nd) {
+    // MB = bits of the modulus (m < 2^MB)
+    let m = ((nd.u8() | 1) as u64) & ((1u64 << MB) - 1);
+    let a = nd.u8() as u64;
+    let b = nd.u8() as u64;
+    nd.assume(m >= 3 && a < m && b < m);
+    let inv = NEG_INV[(m >> 1) as usize];
+    // everything below fits u16: r, r64 < m <= 255 (16-bit dividers instead of 64-bit ones)
+    let r64 = R64[(m >> 1) as usize];
+    let m16 = m as u16;
+    let ab = ((a * b) as u16) % m16;
+    cov!(nd, "zero-divisors", a != 0 && b != 0 && ab == 0);
+    let r = if W == 0 {
+        alg::mul_redc([a], [b], [m], inv)[0]
+    } else {
+        nd.assume(a == b);
+        alg::square_redc([a], [m], inv)[0]
+    };
+    chk!(nd, "C11.redc1_small.range", r < m);
+    if r < m {
+        chk!(nd, "C11.redc1_small.value", ((r as u16) * r64) % m16 == ab);
+    }
+}
